@@ -312,6 +312,19 @@ fn one_case(ctx: &Ctx, case: u64, l: &mut Local) {
     structural(&mut j, "payload-iss-changed", tamper::reencode_segment(&t.parts.jwt, 1, |v| { v["iss"] = json!("https://issuer.example/B"); }), &fixed);
     structural(&mut j, "payload-digest-changed", tamper::reencode_segment(&t.parts.jwt, 1, |v| { tamper::flip_first_digest(v); }), &fixed);
     structural(&mut j, "payload-cnf-replaced", tamper::reencode_segment(&t.parts.jwt, 1, |v| { v["cnf"] = json!({"jwk": keys::holder_jwk_json(Alg::ES256, 1)}); }), &fixed);
+    // every top-level claim in turn: value replaced / member removed; every digest in turn flipped
+    if let Ok(Value::Object(pl)) = t.parts.payload() {
+        for (ki, k) in pl.keys().enumerate().take(24) {
+            let k1 = k.clone();
+            structural(&mut j, &format!("payload-claim-{ki}-replaced"), tamper::reencode_segment(&t.parts.jwt, 1, |v| { v[k1.as_str()] = json!("tampered"); }), &fixed);
+            let k2 = k.clone();
+            structural(&mut j, &format!("payload-claim-{ki}-removed"), tamper::reencode_segment(&t.parts.jwt, 1, |v| { v.as_object_mut().map(|o| o.remove(k2.as_str())); }), &fixed);
+        }
+        let n_digests = tamper::count_digests(&Value::Object(pl.clone()));
+        for di in 0..n_digests.min(24) {
+            structural(&mut j, &format!("payload-digest-{di}-changed"), tamper::reencode_segment(&t.parts.jwt, 1, |v| { tamper::flip_nth_digest(v, di, &mut 0); }), &fixed);
+        }
+    }
     structural(&mut j, "payload-whitespace", Some(format!("{}.{}.{}", segs[0], crate::model::b64e(format!(" {}", String::from_utf8(crate::model::b64d(&segs[1]).unwrap()).unwrap()).as_bytes()), segs[2])), &fixed);
     // signature stripped / truncated / extended
     structural(&mut j, "signature-empty", Some(format!("{}.{}.", segs[0], segs[1])), &fixed);
